@@ -186,6 +186,7 @@ def _c05_floors(m, tier):
     out += need(m, "kx", ["honest", "loworder_peer", "random_peer", "edge_peer"], "kx peer classes")
     out += need(m, "structured_shared_secret", ["w0=w1,w2=w3", "w0=w2,w1=w3", "all_words_equal", "xor_of_words_zero", "low_half_zero", "high_half_zero", "single_nonzero_word", "first_16_zero"], "structured shared secrets")
     out += need(m, "beforenm", ["locked_and_readonly_locked_containers"], "locked precomputation")
+    out += need(m, "kx_own_public_key_form", ["bit255_set", "belongs_to_another_secret_key", "all_zero"], "forms of the own public key in key exchange")
     out += need(m, "rfc7748_iterations", ["1", "1000"] if tier == "quick" else ["1", "1000", "1000000"], "RFC 7748 iterated vectors")
     if "x25519_point_side" in m.cov and len(m.cov["x25519_point_side"]) < 2:
         out.append("offline classification saw only one of curve/twist")
@@ -197,7 +198,7 @@ PROPS["C05"] = dict(
     technique="runtime differential monitoring: libsodium crypto_scalarmult / crypto_box_beforenm / crypto_kx online on random, low-order, twist and non-canonical encodings; RFC 7748 Montgomery ladder in Python offline; RFC iterated vectors",
     level_text="X25519 is executed on uniformly random 32-byte encodings (most of them off the prime-order subgroup), on the complete low-order table with "
                "its non-canonical and high-bit variants, on edge field elements around p and 2^255, and on the RFC 7748 (iterated) vectors; DH commutativity, "
-               "box precomputation and key-exchange session keys (classic + object API) are compared with libsodium including its refusals. Every one-bit neighbour (256 per encoding) and random one-byte neighbours of every special encoding and of the base point are multiplied as well, peers are constructed so that the shared secret has repeating / cancelling / mostly-zero words, and the object-API sessions must derive libsodium's keys for every special and random peer encoding (not only take the same accept/refuse decision). The scalar/point "
+               "box precomputation and key-exchange session keys (classic + object API) are compared with libsodium including its refusals. Every one-bit neighbour (256 per encoding) and random one-byte neighbours of every special encoding and of the base point are multiplied as well, peers are constructed so that the shared secret has repeating / cancelling / mostly-zero words, and the object-API sessions must derive libsodium's keys for every special and random peer encoding (not only take the same accept/refuse decision). Honest exchanges are repeated with the own public key in another form (bit 255 set, belonging to another secret key, all-zero): both APIs must hash the bytes supplied, as libsodium does. The scalar/point "
                "space is 2^512, so this is exploration: dense on the special encodings, sampled elsewhere.",
     level_note="Where libsodium returns -1 (block-listed input or all-zero result) the RFC 7748 value is all-zero; the Python ladder arbitrates those cases offline.",
     runs=lambda tier: [dict(build="st", monitor="c05"), dict(build="ni", monitor="c05", opts=NI_ONLY)] + _rel("c05")(tier),
@@ -464,6 +465,8 @@ def _c13_floors(m, tier):
     out += need(m, "function", ["crypto_kx_seed_keypair", "crypto_sign_seed_keypair", "ed25519_to_curve25519", "KeyPair::from_secret_key", "PwHash::derive_keypair"], "functions")
     out += need(m, "secret_key_class", ["ff", "zeros", "unclamped_random", "random"], "secret key classes")
     out += need(m, "derive_keypair_config_hash_length", ["32", "16", "33", "64"], "Config hash lengths for derive_keypair")
+    out += need(m, "derive_keypair_algorithm", ["argon2i", "argon2id"], "algorithms for derive_keypair")
+    out += need(m, "derive_keypair_passes", ["1", "2", "3", "4", "5", "6"], "pass counts for derive_keypair")
     return out
 
 
@@ -471,7 +474,7 @@ PROPS["C13"] = dict(
     level="exploration",
     technique="runtime differential monitoring: seeded/deterministic key generation compared with libsodium's functions where it accepts the input and with its construction rebuilt from libsodium primitives (SHA-512, BLAKE2b, Argon2 core, X25519 base mult) elsewhere; Python models offline",
     level_text="Box seeds of every length 0..=128 (zeros, 0xff, random), kx and signing seeds, secret keys including unclamped/all-ones ones, password-derived key pairs at minimum cost with salts of 8..64 bytes and "
-               "Config hash lengths other than 32, and Ed25519-to-X25519 conversion of honest pairs are compared with libsodium; the converted pair must be self-consistent. Seeds are sampled, seed lengths enumerated.",
+               "Config hash lengths other than 32 (1..=6 passes; Argon2id, and Argon2i through a configuration parsed from an $argon2i$ string), and Ed25519-to-X25519 conversion of honest pairs are compared with libsodium; the converted pair must be self-consistent. Seeds are sampled, seed lengths enumerated.",
     level_note="For inputs libsodium's API cannot take (seed length != 32, salt length != 16) the reference is the documented construction computed from libsodium primitives, plus the independent Python model.",
     runs=lambda tier: [dict(build="st", monitor="c13")] + _rel("c13")(tier) + _simd("c13")(tier),
     offline=offline.check_c13,
@@ -545,7 +548,10 @@ PROPS["C10"] = dict(
 
 def _c11_floors(m, tier):
     n = len(m.cov.get("entry_point", {}))
-    return [] if n >= 50 else ["only %d of 50 randomised entry points (40 stable + 10 heap/locked) exercised" % n]
+    out = [] if n >= 50 else ["only %d of 50 randomised entry points (40 stable + 10 heap/locked) exercised" % n]
+    out += need(m, "lock_refused", ["no_value_returned(panic or Err)"], "outcomes under refused memory locking")
+    out += need(m, "lock_refused_errno", ["ENOMEM", "EAGAIN", "EPERM"], "errno values of the refused lock requests")
+    return out
 
 
 def _c11_strace(ctx):
@@ -605,7 +611,7 @@ PROPS["C11"] = dict(
     level="exploration",
     technique="runtime history monitoring: N consecutive calls of every randomised entry point, statistical oracle with explicit false-alarm bound (distinctness, non-zero, per-byte variability)",
     level_text="50 entry points (byte-array gen() on every container, all keygen/keypair functions, object-API generators, sealed-box ephemeral key, stream header, password-hash salts from the object and the string API; "
-               "heap / locked / read-only-locked variants on nightly) are each called 256 (quick) / 1024 (thorough) times in a row; no value may repeat, be all-zero, or have a byte position that never changes. Every value must be non-empty and of the announced, constant length; no bit position may be stuck (raw outputs); and after fork(2) parent and child must not draw a common value (each entry point primed once before the fork). "
+               "heap / locked / read-only-locked variants on nightly) are each called 256 (quick) / 1024 (thorough) times in a row; no value may repeat, be all-zero, or have a byte position that never changes. Every value must be non-empty and of the announced, constant length; no bit position may be stuck (raw outputs); and after fork(2) parent and child must not draw a common value (each entry point primed once before the fork). Two fault injections: getrandom(2) failing under a seccomp filter, and mlock(2) refused from the k-th request on while constructors generate into locked memory - not returning is fine, a returned value must be filled. "
                "A finite number of calls cannot prove independence; the test detects constant, partially constant, zero and repeating outputs.",
     level_note="False-alarm probability per run < 2^-100 (distinctness and non-zero tests only on values of >= 16 bytes; a byte position constant over 256 uniform draws has probability 256^-255).",
     runs=lambda tier: [dict(build="st", monitor="c11"), dict(build="ni", monitor="c11", opts=NI_ONLY), dict(kind="custom", fn=_c11_strace)],
@@ -1077,7 +1083,7 @@ PROPS["C18"] = dict(
     level="exploration",
     technique="runtime differential monitoring across builds: one deterministic probe corpus is executed by three builds of the crate (default software backend on stable, nightly, nightly + portable-SIMD backend) and the output transcripts are diffed; inside the nightly builds every operation is repeated with stack / Vec / heap / locked / read-only-locked containers and compared in-process",
     level_text="The probe corpus covers BLAKE2b one-shot for every length 0..=520 (quick) / 1100 (thorough) and all 49x50 digest/key pairs, every 2-way chunking of every length 0..=400/700 and 3-way chunkings at the block "
-               "boundaries, SHA-512, HMAC, Poly1305, SipHash, KDF (all lengths x ids), seeded box key pairs, X25519, kx, box, secretbox, hand-built sealed boxes (nonce derivation), signatures (pure and pre-hashed) "
+               "boundaries, SHA-512, HMAC, Poly1305, SipHash, KDF (all lengths x ids), seeded box key pairs, X25519, kx, box, secretbox, 32 special peer encodings (low-order points, p, their neighbours and high-bit variants: decisions are outputs too), hand-built sealed boxes (nonce derivation), signatures (pure and pre-hashed) "
                "and an Argon2 grid including password lengths that end on BLAKE2b block boundaries. Any differing transcript line or container mismatch is a violation. Four build configurations are compared (stable verif profile, stable plain release, nightly, nightly + simd_backend); the lengths of all 51 public type aliases are compared with libsodium's constants and the length-inferring generic-hash API is run through the stack and protected aliases. Inputs are fixed by the corpus, hence exploration.",
     level_note="Equality with the specifications is decided by C07/C08/C09/C12 on the stable build; C18 adds that the other configurations and container types produce the same bytes.",
     # second run: the nightly half of the C16 monitor (same value, same encoding in stack, heap and locked containers; one
@@ -1116,7 +1122,7 @@ PROPS["C20"] = dict(
     technique="runtime monitoring of the compiler as an observed process: misuse/control programs generated from the type-state table are compiled by the real rustc against the rlib of the crate just built; verdict and error class are recorded per cell; every program that compiles is linked and executed under a signal monitor",
     level_text="One misuse and/or one control program per cell of {ReadWrite, ReadOnly, NoAccess} x {Locked, Unlocked} x {read view, mutable view, array view, mutable array view, index, index-assign, resize, clone, "
                "lock, unlock, read-only, read-write, no-access, use-after-transition} for HeapBytes and HeapByteArray<32>, plus 21 further access routes to the bytes per (container, state) (Deref/DerefMut, AsRef/AsMut to slice and array, slice methods reached by auto-deref, range indexing, "
-               "generic Bytes/MutBytes/ByteArray/MutByteArray bounds, PartialEq, Debug; a route the API does not offer where it would be permitted is recorded, not demanded), resize shrink / to-zero / grow-then-shrink controls, "
+               "generic Bytes/MutBytes/ByteArray/MutByteArray bounds, PartialEq, Debug; a route the API does not offer where it would be permitted is recorded, not demanded), resize shrink / to-zero / grow-then-shrink controls, regions of 0, 1, 4096 and 4097 bytes from alternative constructors driven through every state, "
                "plus {Push, Pull} x {push, pull}: about 480 programs. The five classes the property names "
                "must be rejected by the compiler with an error located on the misuse statement; other cells the model marks forbidden are violated only if the program compiles and faults at run time; every "
                "control (a program differing from the misuse in exactly one statement) must compile, run and exit 0. The claim covers the generated table, not all programs.",
